@@ -85,6 +85,8 @@ struct S_class_2eFIX8_3a_3aMessageBase *x_vf_next_element(void)
 }
 /* cut point: GroupBase::operator<<(element) := count the element as appended */
 void *st_group_append(void *grp, void *el) { W_el_closed++; return grp; }
+/* cut point: GroupBase::size() const := number of elements appended so far (consistent with the operator<< cut; only reached in trees whose decode_group compares the count) */
+uint64_t st_group_size(void *grp) { return (uint64_t)W_el_closed; }
 /* cut point: unique_ptr<MessageBase>::~unique_ptr := nothing (element storage is the static pool) */
 void st_uptr_dtor(void *p) { }
 /* cut point: Message::calc_chksum(const char*, size, offset, len) := the byte sum W_sum chosen by the harness (C07 proves the kernel equals the byte sum) */
@@ -108,7 +110,12 @@ void *st_msg_create(void *fn, uint8_t deep)
 }
 #ifdef NOGROUP
 /* cut point (harnesses whose token menu has no repeating-group count): MessageBase::decode_group := unreachable */
-uint32_t st_no_group(void *self, void *grp, uint16_t fnum, void *from, uint32_t off, uint32_t ign) { __CPROVER_assert(0, "decode_group reached in a harness without group tokens"); __CPROVER_assume(0); return 0; }
+#ifdef DGROUP_CNTFLD
+uint32_t st_no_group(void *self, void *grp, uint16_t fnum, void *cntfld, void *from, uint32_t off, uint32_t ign) {
+#else
+uint32_t st_no_group(void *self, void *grp, uint16_t fnum, void *from, uint32_t off, uint32_t ign) {
+#endif
+  __CPROVER_assert(0, "decode_group reached in a harness without group tokens"); __CPROVER_assume(0); return 0; }
 #endif
 /* cut points: f8Exception::format<...> (text formatting of exception reasons) := remember the numeric argument */
 void st_fmt_u_s(void *e, void *msg, uint32_t what, void *msg2, void *what2) { W_exc_arg = what; }
